@@ -26,6 +26,10 @@ def run(c):
     for r in rej:
         ev, raw = txnlib.describe(r)
         sig = "seq|%s|%s" % (raw.get("ev"), raw.get("op") or ("exists=%s" % raw.get("exists")))
+        if raw.get("ev") == "Op" and raw.get("op") in txnlib.READ_OPS:
+            stores = {s["Name"]: s for s in (r["header"].get("program") or {}).get("stores", [])}
+            empty = (raw.get("op") in ("Get",) and raw.get("ok") and raw.get("v") == "") or any(x.get("v") == "" for x in raw.get("items") or [])
+            sig += "|intxn-read|%s|%s" % (stores.get(raw.get("s"), {}).get("Placement", "?"), "empty-value" if empty else "wrong-value")
         c.report(sig, "sequential program: event %d not explained by TxnStore: %s" % (r["index"], json.dumps(raw)[:300]),
                  dict(trace=r["trace"], program=r["header"].get("program"), rejected_index=r["index"], events=r["raw"]))
     # 2. fault injection at every backend call of the victim's commit (state claims only)
